@@ -277,8 +277,9 @@ Print Assumptions prefer_self_is_source.
    on every check (Gen/MergeGen.v over the vocabulary Gen/MergePrelude.v): normalising `other`, the
    fast-path condition, the pairwise loop through the recursive call, the replacement of None
    metadata functions, the mode validation, the id orders through the regenerated helpers, the
-   sort by index and the empty-result refusals; the statements after that are pinned by AST hash
-   (merge_build).  The generated method takes the target of its recursive call as a parameter; two
+   sort by index, the empty-result refusals, the two metadata loops (guarded look-up, call of the
+   metadata function) and the constructor call; the vector loop (merge_vectors) and the
+   pre-computed sample orders are regions pinned by AST hash.  The generated method takes the target of its recursive call as a parameter; two
    unfoldings are the method, whatever stands at the third level (merge_recursion_is_source_partial).
    partial: the receiver's ids must be distinct (ids of a well-formed table are, C05) - inherited
    from intersect_order_is_source_partial; the intermediate tables of the pairwise loop are
